@@ -187,7 +187,7 @@ class SGen(object):
         def one(nm, default_ok):
             s = nm
             if o.annotations and r.random() < 0.3:
-                s += ': %s' % r.choice(['int', self.name(), '%s.%s' % (self.name(), r.choice(ATTRS))])
+                s += ': %s' % self.annotation()
                 if default_ok and r.random() < 0.4:
                     s += ' = %s' % self.expr(1 if r.random() < 0.3 else 2)
             elif default_ok and r.random() < 0.4:
@@ -212,6 +212,23 @@ class SGen(object):
         if r.random() < 0.15 and pool:
             out.append('**' + one(pool.pop(), False))
         return ', '.join(out)
+
+    def annotation(self):
+        """parameter / return annotation: a name, an attribute, or (o.annotation_lambdas) a lambda with or without
+        parameters and defaults -- a lambda inside an annotation runs a nested annotation / declaration pass"""
+        r = self.r
+        if getattr(self.o, 'annotation_lambdas', True) and r.random() < 0.22:
+            k = r.random()
+            if k < 0.3:
+                return '(lambda: %s)' % self.name()
+            if k < 0.7:
+                p, q = r.sample(NAMES, 2)
+                return '(lambda %s, %s=%s: %s + %s + %s)' % (p, q, self.name(), p, q, self.name())
+            if k < 0.85:
+                p = r.choice(NAMES)
+                return '(lambda *, %s=%s: %s)' % (p, self.name(), p)
+            return '(lambda%s: %s)' % (self.lambda_params(), self.expr(2))
+        return r.choice(['int', self.name(), '%s.%s' % (self.name(), r.choice(ATTRS))])
 
     def simple(self, ind):
         r = self.r
@@ -358,7 +375,7 @@ class SGen(object):
                 self.emit(ind, '@%s' % self.expr(2))
         self.uid += 1
         nm = name or (r.choice(NAMES) if r.random() < 0.5 else 'fn%d' % self.uid)
-        ret = ' -> %s' % self.name() if (o.annotations and r.random() < 0.15) else ''
+        ret = ' -> %s' % self.annotation() if (o.annotations and r.random() < 0.15) else ''
         self.emit(ind, 'def %s(%s)%s:' % (nm, self.params(method), ret))
         self.depth += 1
         self.depth_fn += 1
